@@ -517,6 +517,9 @@ func c41KFBefore(g *d2graph.Graph, board []string, op *c37Op) []string {
 
 func c41KF(st *c41Step) []string {
 	kf := append([]string{}, st.kf...)
+	if c36MovePanics(st.op) {
+		kf = append(kf, "C36-move-with-descendants-dotted-key-panics")
+	}
 	if st.res.err != nil && c41ErrClass(st.res.err) == "recompile" {
 		kf = append(kf, "C41-compiler-refusal-leaves-input-modified")
 	}
